@@ -5,11 +5,13 @@ import (
 	"encoding/json"
 	"fmt"
 	"io"
+	"math/rand"
 	"net"
 	"net/http"
 	"os"
 	"os/exec"
 	"path/filepath"
+	"sort"
 	"syscall"
 	"time"
 
@@ -190,4 +192,175 @@ func RunBinaryCase(seed int64, bin, workDir string, forced bool) *HistResult {
 
 func signHS256(secret string) string {
 	return signHS256Claims(secret, map[string]any{"sub": "binary-test"})
+}
+
+// RunReloadBinaryCase drives the REAL reload path of the binary (SIGUSR1 -> LoadRecursively -> Equals ->
+// ReplaceDefinitions): a sequence of edits of the pipeline files, including edits back to an earlier content, must each be
+// applied - the pipeline list and the tasks of jobs accepted afterwards must follow the files
+func RunReloadBinaryCase(seed int64, bin, workDir string) *HistResult {
+	r := rand.New(rand.NewSource(seed))
+	res := &HistResult{Seed: seed, Situations: map[string]map[string]struct{}{}, Evaluations: map[string]int{}}
+	find := func(sig, format string, args ...any) {
+		res.Findings = append(res.Findings, Finding{Props: []string{"C16", "C17"}, Sig: sig, Detail: fmt.Sprintf(format, args...), Step: -1})
+	}
+	dir, err := os.MkdirTemp(workDir, "reload-")
+	if err != nil {
+		res.Inconclusive = err.Error()
+		return res
+	}
+	defer os.RemoveAll(dir)
+	// versions of the definitions: each names its pipelines and the single task of pipeline "main"
+	type version struct {
+		name  string
+		pipes []string
+		task  string
+		yml   string
+	}
+	mk := func(name string, pipes []string, task string, extra string) version {
+		y := "pipelines:\n"
+		for _, p := range pipes {
+			y += fmt.Sprintf("  %s:\n    concurrency: 5\n%s    tasks:\n      %s:\n        script: [\"true\"]\n", p, extra, task)
+		}
+		return version{name, pipes, task, y}
+	}
+	versions := []version{
+		mk("A", []string{"main"}, "task_a", ""),
+		mk("B", []string{"main", "second"}, "task_b", ""),
+		mk("C", []string{"main"}, "task_a", "    env:\n      K: \"\"\n"),
+		mk("D", []string{"main"}, "task_a", "    env:\n      L: \"\"\n"),
+		mk("E", []string{"main"}, "task_a", "    queue_limit: 0\n"),
+	}
+	write := func(v version) { _ = os.WriteFile(filepath.Join(dir, "pipelines.yml"), []byte(v.yml), 0o644) }
+	write(versions[0])
+	l, err := net.Listen("tcp", "127.0.0.1:0")
+	if err != nil {
+		res.Inconclusive = "no loopback listener: " + err.Error()
+		return res
+	}
+	addr := l.Addr().String()
+	l.Close()
+	secret := "binary-test-secret-0123456789"
+	cmd := exec.Command(bin, "--path", dir, "--data", filepath.Join(dir, "data"), "--address", addr, "--jwt-secret", secret, "--env-files", "", "--config", filepath.Join(dir, "cfg.yml"))
+	cmd.Dir = dir
+	logf, _ := os.Create(filepath.Join(dir, "prunner.log"))
+	cmd.Stdout, cmd.Stderr = logf, logf
+	if err := cmd.Start(); err != nil {
+		res.Inconclusive = "cannot start the prunner binary: " + err.Error()
+		return res
+	}
+	defer func() { _ = cmd.Process.Kill(); _, _ = cmd.Process.Wait() }()
+	token := signHS256(secret)
+	do := func(method, path string, body any) (int, []byte) {
+		var rd io.Reader
+		if body != nil {
+			b, _ := json.Marshal(body)
+			rd = bytes.NewReader(b)
+		}
+		req, _ := http.NewRequest(method, "http://"+addr+path, rd)
+		req.Header.Set("Authorization", "Bearer "+token)
+		resp, err := http.DefaultClient.Do(req)
+		if err != nil {
+			return 0, nil
+		}
+		defer resp.Body.Close()
+		b, _ := io.ReadAll(resp.Body)
+		return resp.StatusCode, b
+	}
+	listed := func() ([]string, bool) {
+		code, body := do("GET", "/pipelines/", nil)
+		if code != 200 {
+			return nil, false
+		}
+		var pr struct {
+			Pipelines []struct{ Pipeline string }
+		}
+		_ = json.Unmarshal(body, &pr)
+		var names []string
+		for _, p := range pr.Pipelines {
+			names = append(names, p.Pipeline)
+		}
+		sort.Strings(names)
+		return names, true
+	}
+	up := false
+	for i := 0; i < 400; i++ {
+		if _, ok := listed(); ok {
+			up = true
+			break
+		}
+		time.Sleep(10 * time.Millisecond)
+	}
+	if !up {
+		res.Inconclusive = "the prunner binary did not come up"
+		return res
+	}
+	taskOfNewJob := func() string {
+		code, body := do("POST", "/pipelines/schedule", map[string]any{"pipeline": "main"})
+		var sr struct{ JobID string }
+		_ = json.Unmarshal(body, &sr)
+		if code != 202 {
+			return fmt.Sprintf("schedule answered %d", code)
+		}
+		_, body = do("GET", "/job/detail?id="+sr.JobID, nil)
+		var jd struct {
+			Tasks []struct{ Name string }
+		}
+		_ = json.Unmarshal(body, &jd)
+		if len(jd.Tasks) != 1 {
+			return fmt.Sprintf("%d tasks", len(jd.Tasks))
+		}
+		return jd.Tasks[0].Name
+	}
+	// edit sequence: always includes going back to the content the process started with, and pairs that differ only in an
+	// env key with an empty value
+	seq := []int{1, 0, 1, 0, 2, 3, 2, 0, 4, 0}
+	if r.Intn(2) == 0 {
+		seq = []int{2, 3, 0, 1, 0, 1, 4, 0, 3, 2, 0}
+	}
+	cur := versions[0]
+	for step, vi := range seq {
+		next := versions[vi]
+		write(next)
+		_ = cmd.Process.Signal(syscall.SIGUSR1)
+		res.sit("C16", fmt.Sprintf("reload %s->%s", cur.name, next.name))
+		res.sit("C17", fmt.Sprintf("reload %s->%s", cur.name, next.name))
+		res.Evaluations["C16"]++
+		res.Evaluations["C17"]++
+		// the reload is asynchronous: wait (bounded) until the API reflects the file; what must change depends on the pair
+		want := append([]string(nil), next.pipes...)
+		sort.Strings(want)
+		ok := false
+		var got []string
+		var gotTask string
+		for i := 0; i < 1000; i++ {
+			got, _ = listed()
+			if eqStr(got, want) {
+				ok = true
+				break
+			}
+			time.Sleep(10 * time.Millisecond)
+		}
+		if ok && next.name == "E" {
+			// queue_limit 0 with 5 free slots still starts jobs; nothing more to observe here
+		}
+		if ok {
+			// a job accepted after the reload uses the new definition
+			for i := 0; i < 1000; i++ {
+				gotTask = taskOfNewJob()
+				if gotTask == next.task {
+					break
+				}
+				time.Sleep(10 * time.Millisecond)
+			}
+			if gotTask != next.task {
+				ok = false
+			}
+		}
+		if !ok {
+			find("C17:edit-ignored-by-reload", "step %d: the files were changed from version %s to version %s and SIGUSR1 was sent, but 10 s later the API still lists pipelines %v (file: %v) and a new job of 'main' has task %q (file: %q)", step, cur.name, next.name, got, want, gotTask, next.task)
+			break
+		}
+		cur = next
+	}
+	return res
 }
